@@ -2,6 +2,10 @@ CONSTANTS
   MaxLabel = 63
   MaxName = 255
   MaxRefs = 16
+  MaxSuffixes = 32
+  MaxSuffixLen = 127
+  PtrLimit = 16384
+  ImplBug = "none"
   ObjDefect = "none"
 INIT Init
 NEXT NextUnc
